@@ -67,7 +67,9 @@ prop('C07', level='proof',
      undecided=['"never hangs" (liveness)', 'that every damaged input is detected (C05)'])
 prop('C08', level='proof',
      text='Every harness runs with bounds, pointer, overflow, shift and division checks on, so the functions under contract are free of UB under their stated '
-          'preconditions; bounded functions are listed as bounded.',
+          'preconditions; bounded functions are listed as bounded. The quick tier runs the obligations aimed at the C08 anchors (run accumulation shift bound, run dump vs tt_limit, '
+          'fast-path guard, selector store bounds, end of block, heap primitives, collect()/final flush near capacity, xread/xwrite, selector MTF ctz argument, dummy table shifts); '
+          'the thorough tier adds the safety checks of every other harness (scheduler task bodies, prefix decoding, inverse BWT, MTF fast path, emit, do_mtf).',
      note=PCHAIN + 'not a whole-program claim: divbwt at real block sizes, retrieve fast path on full streams and cross-thread lifetime are undecided.',
      technique='CBMC built-in safety checks on all contract harnesses', design_ref='§4 C08',
      undecided=['divbwt() sort stacks and recursion budget', 'retrieve() fast path (32-word precondition) and tt_limit check at real sizes', 'mtf_one() rebuild path', 'do_mtf(), generate_prefix_code() EM loops, transmit()', 'use-after-free across threads'])
@@ -704,4 +706,10 @@ def all_obligations():
          replayable=True, stream_replay='cdf', trace_vars=['g_work_hdr', 'g_work_vacant'],
          assumed=['schedule()/copy(): thread-spawning drivers replaced by assumed contracts whose requires clauses are the obligations',
                   'xread()/xwrite(): own contracts (proved in process.xread / process.xwrite)', 'info(): no-op stub']))
+    # C08 is the union of the safety checks of every harness; in its QUICK tier the obligations whose main content belongs to another property
+    # and that take minutes (scheduler task bodies, prefix-decoding agreement, inverse BWT, MTF fast path, operand loop) are left to the thorough tier
+    for o in obs:
+        if 'C08' in o.props and (o.name.startswith(('expand.do_', 'expand.attach_detach', 'decode.prefix_decode', 'decode.ibwt', 'decode.mtf_fast', 'compress.do_', 'process.source_thread',
+                                                     'process.sink_thread', 'decode.make_tree_kraft', 'encode.do_mtf', 'decode.emit_step', 'encode.group_count'))):
+            o.slow_for = ['C08']
     return obs
